@@ -333,3 +333,132 @@ Example parse_spells_not_vacuous_all_forms :
        ar_args := [(s "host", VStr (s "h3"))] |}.
 Proof. exact NamesResolveExamples.all_forms. Qed.
 Print Assumptions parse_spells_not_vacuous_all_forms.
+
+(* ==== added in the fourth session: command names ANYWHERE among the option items ====
+   parse_spells above is stated for line descriptions [ld] that write every command-name spelling first.  The parser
+   accepts more: to its token loop a spelling is a positional token, and the re-alignment matches the command names
+   against the first positional values of the line wherever they stand - behind options ('-v server --port 80 add x')
+   and even behind "--" ('-v -- server add x').  Model/Spell.v now has the generalised descriptions [ld2] (an item is an
+   item of [ld] or a command-name spelling [IName s]; "--" is followed by further spellings, then values), with
+   [render2], [denote2] and the side conditions [wf_line2]: those of [wf_line] with the spellings in their places
+   (before "--" a spelling is a positional token of the loop: it does not look like an option and does not follow an
+   omitted optional value), + [names_first] (no positional value in front of a spelling: it would be tried as the command
+   name), + [names_match] (the spellings are non-empty names / aliases of the first command names, in order).  Checked
+   on the real parser first (notes/w1-c01names.md): a separated option value that equals a command name is consumed by
+   the option and needs no condition; an omitted optional value swallows a following spelling.
+   FULL STATEMENT for the generalised grammar, proved (Proofs/SpellNames.v): *)
+From Clikit Require Import Proofs.SpellNames.
+
+Theorem parse_spells_interleaved : forall f d, fmt_ok f = true -> wf_line2 f d = true ->
+  forall lenient, parse f lenient (render2 d) = Ok (denote2 f d).
+Proof. exact parse_spells2_lemma. Qed.
+Print Assumptions parse_spells_interleaved.
+(* with fmt_ok replaced by reachability through the builder API / by the format invariant *)
+Theorem parse_spells_interleaved_reachable : forall f d, api_format f -> wf_line2 f d = true ->
+  forall lenient, parse f lenient (render2 d) = Ok (denote2 f d).
+Proof. exact parse_spells2_reachable_lemma. Qed.
+Print Assumptions parse_spells_interleaved_reachable.
+Theorem parse_spells_interleaved_wf : forall f d, fmt_inv f -> wf_line2 f d = true ->
+  forall lenient, parse f lenient (render2 d) = Ok (denote2 f d).
+Proof. exact parse_spells2_inv_lemma. Qed.
+Print Assumptions parse_spells_interleaved_wf.
+Theorem interleaved_spelling_parses : forall f asg line, fmt_ok f = true -> spells2 f asg line ->
+  forall lenient, parse f lenient line = Ok asg.
+Proof. exact spells2_parse. Qed.
+Print Assumptions interleaved_spelling_parses.
+
+(* the old grammar is the part of the new one with all spellings in front: same tokens, same assignment, and the side
+   conditions of the old grammar imply the new ones - so parse_spells is a corollary of parse_spells_interleaved *)
+Theorem old_grammar_embeds : forall f d,
+  render2 (embed d) = render d /\ denote2 f (embed d) = denote f d /\ (wf_line f d = true -> wf_line2 f (embed d) = true).
+Proof. exact embed_facts. Qed.
+Print Assumptions old_grammar_embeds.
+Theorem parse_spells_from_interleaved : forall f d, fmt_ok f = true -> wf_line f d = true ->
+  forall lenient, parse f lenient (render d) = Ok (denote f d).
+Proof. exact SpellNames.parse_spells_from_interleaved. Qed.
+Print Assumptions parse_spells_from_interleaved.
+(* where a spelling stands does not matter to the assignment: it is the one of the line with all spellings in front *)
+Theorem interleaved_assignment_ignores_name_positions : forall f d, denote2 f d = denote f (names_to_front d).
+Proof. exact denote2_front. Qed.
+Print Assumptions interleaved_assignment_ignores_name_positions.
+
+(* the hypotheses are satisfiable: F1 (command names server / srv and add, three arguments, six options) and F2 (the same
+   over a base) with the line
+     -q --verbose srv --num=-5 --tag add -tx -n 12 -vqt y add -vq h1 -qvcred 8080 -c --level -vc -- -a '' b
+   (options before the first command name and between the two, an alias, every constructor of item / vform / glast, a
+   separated value equal to the next command name); E2 = -v server -n7 -- add h2 80 -- add (second command name behind
+   "--"); E3 = -q -- srv add h (both behind "--"); E4 = -v server --num=3 server (second name omitted) *)
+Example parse_spells_interleaved_not_vacuous :
+  let s := SpellExamples.s in
+  fmt_ok SpellExamples.F1 = true /\ wf_line2 SpellExamples.F1 SpellNamesExamples.E1 = true /\
+  fmt_ok SpellExamples.F2 = true /\ wf_line2 SpellExamples.F2 SpellNamesExamples.E1 = true /\
+  render2 SpellNamesExamples.E1 =
+    [s "-q"; s "--verbose"; s "srv"; s "--num=-5"; s "--tag"; s "add"; s "-tx"; s "-n"; s "12"; s "-vqt"; s "y"; s "add";
+     s "-vq"; s "h1"; s "-qvcred"; s "8080"; s "-c"; s "--level"; s "-vc"; s "--"; s "-a"; s ""; s "b"] /\
+  names2 SpellNamesExamples.E1 = [s "srv"; s "add"] /\
+  denote2 SpellExamples.F1 SpellNamesExamples.E1 =
+    {| ar_opts := [(s "quiet", VBool true); (s "verbose", VBool true); (s "num", VInt 12);
+                   (s "tag", VList [VStr (s "add"); VStr (s "x"); VStr (s "y")]); (s "color", VStr (s "auto")); (s "level", VInt 3)];
+       ar_args := [(s "host", VStr (s "h1")); (s "port", VInt 8080); (s "files", VList [VStr (s "-a"); VStr (s ""); VStr (s "b")])] |} /\
+  wf_line2 SpellExamples.F1 SpellNamesExamples.E2 = true /\ wf_line2 SpellExamples.F1 SpellNamesExamples.E3 = true /\
+  wf_line2 SpellExamples.F1 SpellNamesExamples.E4 = true.
+Proof.
+  exact (conj SpellExamples.F1_ok (conj SpellNamesExamples.E1_wf (conj SpellExamples.F2_ok (conj (proj1 SpellNamesExamples.E1_over_base)
+        (conj SpellNamesExamples.E1_tokens (conj (proj1 SpellNamesExamples.E1_names) (conj SpellNamesExamples.E1_value
+        (conj (proj1 SpellNamesExamples.E2_parses) (conj (proj1 SpellNamesExamples.E3_parses) (proj1 SpellNamesExamples.E4_parses)))))))))).
+Qed.
+Print Assumptions parse_spells_interleaved_not_vacuous.
+(* the side conditions added are needed: lines they exclude, and the parser does not return the described assignment -
+   Y1 = --color server add h (an omitted optional value swallows the spelling), Y2 = h server add (a value in front of
+   the spellings), Y3 = h -- server add, Y4 = -v add h (the second command name without the first) *)
+Example interleaved_side_conditions_needed :
+  (wf_line2 SpellExamples.F1 SpellNamesExamples.Y1 = false /\
+   forall lenient, parse SpellExamples.F1 lenient (render2 SpellNamesExamples.Y1) <> Ok (denote2 SpellExamples.F1 SpellNamesExamples.Y1)) /\
+  (wf_line2 SpellExamples.F1 SpellNamesExamples.Y2 = false /\
+   forall lenient, parse SpellExamples.F1 lenient (render2 SpellNamesExamples.Y2) <> Ok (denote2 SpellExamples.F1 SpellNamesExamples.Y2)) /\
+  (wf_line2 SpellExamples.F1 SpellNamesExamples.Y3 = false /\
+   forall lenient, parse SpellExamples.F1 lenient (render2 SpellNamesExamples.Y3) <> Ok (denote2 SpellExamples.F1 SpellNamesExamples.Y3)) /\
+  (wf_line2 SpellExamples.F1 SpellNamesExamples.Y4 = false /\
+   forall lenient, parse SpellExamples.F1 lenient (render2 SpellNamesExamples.Y4) <> Ok (denote2 SpellExamples.F1 SpellNamesExamples.Y4)).
+Proof.
+  exact (conj SpellNamesExamples.Y1_excluded (conj SpellNamesExamples.Y2_excluded
+        (conj SpellNamesExamples.Y3_excluded SpellNamesExamples.Y4_excluded))).
+Qed.
+Print Assumptions interleaved_side_conditions_needed.
+
+(* what the assignment [denote2 f d] reports through the read side of Args (as the spelled_* theorems above) *)
+Theorem interleaved_options_marked_set : forall f d n o, get_option f n true = Ok o -> has_option f n true = true ->
+  args_is_option_set f (denote2 f d) n = mentions (o_long o) (events2 d).
+Proof. exact spelled2_option_set. Qed.
+Print Assumptions interleaved_options_marked_set.
+Theorem interleaved_unspelled_option_default : forall f d n o, get_option f n true = Ok o ->
+  mentions (o_long o) (events2 d) = false -> args_option f (denote2 f d) n = Ok (opt_default_value o).
+Proof. exact unspelled2_option_default. Qed.
+Print Assumptions interleaved_unspelled_option_default.
+Theorem interleaved_single_option : forall f d n o es1 e es2, get_option f n true = Ok o ->
+  events2 d = (es1 ++ e :: es2)%list -> ev_key e = o_long o -> mentions (o_long o) es2 = false ->
+  (match snd e with GText _ => o_multi (fst e) = false | _ => True end) ->
+  args_option f (denote2 f d) n = Ok (event_value e).
+Proof. exact spelled2_single_option. Qed.
+Print Assumptions interleaved_single_option.
+Theorem interleaved_multi_option : forall f d n o, fmt_ok f = true -> wf_line2 f d = true ->
+  get_option f n true = Ok o -> get_option f (o_long o) true = Ok o ->
+  o_multi o = true -> mentions (o_long o) (events2 d) = true ->
+  args_option f (denote2 f d) n = Ok (VList (map (fun s => conv_opt o (VStr s)) (texts_of (o_long o) (events2 d)))).
+Proof. exact spelled2_multi_option. Qed.
+Print Assumptions interleaved_multi_option.
+Theorem interleaved_argument_set : forall f d i a r, fmt_ok f = true -> wf_line2 f d = true ->
+  nth_error (get_arguments_all f) i = Some (a_name a, a) ->
+  get_argument f r true = Ok a -> has_argument f r true = true ->
+  args_is_argument_set f (denote2 f d) r = (i <? List.length (values2 d))%nat.
+Proof. exact spelled2_argument_set. Qed.
+Print Assumptions interleaved_argument_set.
+Theorem interleaved_argument_value : forall f d i a r, fmt_ok f = true -> wf_line2 f d = true ->
+  nth_error (get_arguments_all f) i = Some (a_name a, a) ->
+  get_argument f r true = Ok a -> has_argument f r true = true ->
+  args_argument f (denote2 f d) r =
+  Ok (if (i <? List.length (values2 d))%nat
+      then (if a_multi a then VList (map (conv_arg a) (List.skipn i (values2 d))) else conv_arg a (nth i (values2 d) []))
+      else a_default a).
+Proof. exact spelled2_argument_value. Qed.
+Print Assumptions interleaved_argument_value.
